@@ -61,6 +61,17 @@ def build(job):
         entry_eff = (abs(q1) * p2 + abs(q1) * entry) / (abs(q1) + abs(q1))
     liq, bankr = ref_prices(entry_eff, lev, side)
     sign = -1 if side == 'long' else 1         # direction of the losing move
+    if job.get('wick_gap') and not avg and lev > 1:
+        # the candle at whose close the position is opened had wicked beyond the liquidation level BEFORE the entry, and the
+        # next candle gaps away on the favourable side: its range (extended to the previous CLOSE) does not contain the level
+        wick = liq * (1 + sign * 0.001)
+        if side == 'long':
+            rows[m][4] = min(rows[m][4], wick)
+        else:
+            rows[m][3] = max(rows[m][3], wick)
+        o_ = entry * (1 - sign * 0.002)
+        c_ = o_ * (1 - sign * 0.0002)
+        rows.append(np.array([0, o_, c_, max(o_, c_), min(o_, c_), 4.0]))
     # approach: a few calm candles drifting part of the way
     cur = float(rows[-1][2])
     steps = rng.randint(2, 5)
@@ -308,6 +319,6 @@ def make_jobs(tier, seed):
                          'stop': stop, 'fast': fast, 'mode': mode, 'averaged': rng.random() < 0.3,
                          'tf': rng.choice(['1m', '1m', '5m']), 'fee': rng.choice([0, 0.0005, 0.001]),
                          'close_mode': rng.choice(['half', 'half', 'recover_profit', 'at_extreme']),
-                         'resting_tps': rng.choice([0, 0, 3, 4]), 'partial_tp': rng.random() < 0.5, 'callback_market': rng.random() < 0.5})
+                         'resting_tps': rng.choice([0, 0, 3, 4]), 'partial_tp': rng.random() < 0.5, 'callback_market': rng.random() < 0.5, 'wick_gap': rng.random() < 0.3})
             i += 1
     return jobs
